@@ -389,6 +389,10 @@ def make_job(name, spec, defs, prop, tier, module=None, parser=None, hostile=Fal
     if module:
         job['module'] = module
         job['parser'] = parser
+    if tier != 'quick':
+        # fallback when the thorough bounds cannot be explored within the budget: the quick-tier bounds for this validator
+        q = make_job(name, spec, defs, prop, 'quick', module, parser, hostile)
+        job['fallback'] = {k: q[k] for k in ('kinds', 'midKinds', 'leafKinds', 'maxDepth', 'keyPool', 'extraKeys', 'maxPaths')}
     return job
 
 
@@ -420,16 +424,25 @@ def _task(args):
     job, = args
     t0 = time.time()
     rtdir = RTI
-    budget = 300 if job.get('tier', 'quick') == 'quick' else 2400
+    budget = 300 if job.get('tier', 'quick') == 'quick' else 900
     res = run_harness(job, rtdir, timeout=budget)
     reduced = None
-    if res.get('harness_error') == 'timeout' or res.get('bound_hit'):
-        reduced = 'timeout' if 'harness_error' in res else 'path bound'
+
+    def blown(r):
+        return r.get('harness_error') == 'timeout' or r.get('bound_hit')
+    if blown(res) and job.get('fallback'):
+        reduced = ('timeout' if 'harness_error' in res else 'path bound') + ' -> quick-tier bounds'
         j2 = dict(job)
-        j2['maxDepth'] = 1
-        j2['midKinds'] = list(job['leafKinds'])
+        j2.update(job['fallback'])
         res = run_harness(j2, rtdir, timeout=budget)
-        if (res.get('harness_error') == 'timeout' or res.get('bound_hit')) and job['name'].startswith('rand'):
+    if blown(res):
+        reduced = ('timeout' if 'harness_error' in res else 'path bound') + ' -> depth 1, leaf kinds only'
+        j2 = dict(job)
+        j2.update(job.get('fallback') or {})
+        j2['maxDepth'] = 1
+        j2['midKinds'] = list(j2['leafKinds'])
+        res = run_harness(j2, rtdir, timeout=budget)
+        if blown(res) and job['name'].startswith('rand'):
             res = {'skipped': reduced}
     res['job'] = job['name']
     if reduced:
@@ -476,7 +489,7 @@ def run(pid, tier, extra_jobs=None):
     for res in results:
         job = byname[res['job']]
         if res.get('reduced'):
-            agg.setdefault('reduced_bounds', []).append(f'{job["name"]} ({res["reduced"]}): explored with depth 1 / leaf kinds only')
+            agg.setdefault('reduced_bounds', []).append(f'{job["name"]}: {res["reduced"]}')
         if 'skipped' in res:
             agg.setdefault('dropped_random_validators', []).append(f'{job["name"]} ({res["skipped"]} even with reduced bounds): {json.dumps(job["spec"])[:200]}')
             continue
